@@ -48,14 +48,14 @@ struct ParseCfg {
     bool ns = true, nsPrefixes = false, schema = false, fullSchema = false, exitOnFirstFatal = true, validationErrorAsFatal = false;
     bool loadExternalDTD = true, loadSchema = true, identity = true, entityRefNodes = false, includeIgnorableWS = true, comments = true;
     bool calcSrcOfs = false, disableDefaultEntityResolution = false, skipDTDValidation = false, standardUri = false;
-    bool cacheGrammar = false, useCachedGrammar = false, doXInclude = false, psvi = false;
+    bool cacheGrammar = false, useCachedGrammar = false, doXInclude = false, psvi = false, disallowDoctype = false;
     bool secMgr = false; int entityLimit = 50000; int lowWaterMark = -1;
     bool positions = true;     // include locator positions in dumps
     static ParseCfg fromJson(const Json& j) {
         ParseCfg c; c.api = (int)j.geti("api", 1); c.scanner = (int)j.geti("scanner", 0); c.val = (int)j.geti("val", 0);
 #define B(f) c.f = j.getb(#f, c.f)
         B(ns); B(nsPrefixes); B(schema); B(fullSchema); B(exitOnFirstFatal); B(validationErrorAsFatal); B(loadExternalDTD); B(loadSchema); B(identity); B(entityRefNodes); B(includeIgnorableWS); B(comments);
-        B(calcSrcOfs); B(disableDefaultEntityResolution); B(skipDTDValidation); B(standardUri); B(cacheGrammar); B(useCachedGrammar); B(doXInclude); B(psvi); B(secMgr); B(positions);
+        B(calcSrcOfs); B(disableDefaultEntityResolution); B(skipDTDValidation); B(standardUri); B(cacheGrammar); B(useCachedGrammar); B(doXInclude); B(psvi); B(disallowDoctype); B(secMgr); B(positions);
 #undef B
         c.entityLimit = (int)j.geti("entityLimit", c.entityLimit); c.lowWaterMark = (int)j.geti("lowWaterMark", -1); return c;
     }
@@ -64,7 +64,7 @@ struct ParseCfg {
         ParseCfg d;
 #define B(f) if (f != d.f) j.set(#f, f)
         B(ns); B(nsPrefixes); B(schema); B(fullSchema); B(exitOnFirstFatal); B(validationErrorAsFatal); B(loadExternalDTD); B(loadSchema); B(identity); B(entityRefNodes); B(includeIgnorableWS); B(comments);
-        B(calcSrcOfs); B(disableDefaultEntityResolution); B(skipDTDValidation); B(standardUri); B(cacheGrammar); B(useCachedGrammar); B(doXInclude); B(psvi); B(secMgr); B(positions);
+        B(calcSrcOfs); B(disableDefaultEntityResolution); B(skipDTDValidation); B(standardUri); B(cacheGrammar); B(useCachedGrammar); B(doXInclude); B(psvi); B(disallowDoctype); B(secMgr); B(positions);
 #undef B
         if (secMgr) j.set("entityLimit", entityLimit); if (lowWaterMark >= 0) j.set("lowWaterMark", lowWaterMark); return j;
     }
@@ -325,7 +325,7 @@ public:
             p->setDoNamespaces(c.ns); p->setDoSchema(c.schema); p->setValidationSchemaFullChecking(c.fullSchema); p->setIdentityConstraintChecking(c.identity);
             p->setExitOnFirstFatalError(c.exitOnFirstFatal); p->setValidationConstraintFatal(c.validationErrorAsFatal); p->setLoadExternalDTD(c.loadExternalDTD); p->setLoadSchema(c.loadSchema);
             p->setCalculateSrcOfs(c.calcSrcOfs); p->setDisableDefaultEntityResolution(c.disableDefaultEntityResolution); p->setSkipDTDValidation(c.skipDTDValidation); p->setStandardUriConformant(c.standardUri);
-            p->cacheGrammarFromParse(c.cacheGrammar); p->useCachedGrammarInParse(c.useCachedGrammar || c.cacheGrammar); p->setSecurityManager(sm);
+            p->cacheGrammarFromParse(c.cacheGrammar); p->useCachedGrammarInParse(c.useCachedGrammar || c.cacheGrammar); p->setSecurityManager(sm); p->setDisallowDoctype(c.disallowDoctype);
             if (c.lowWaterMark >= 0) p->setLowWaterMark((XMLSize_t)c.lowWaterMark); else p->setLowWaterMark(100);
             if (c.calcSrcOfs) fRec.srcOfs = [p]() { return " ofs=" + std::to_string((unsigned long long)p->getSrcOffset()); }; else fRec.srcOfs = nullptr;
         } else if (fSax2) { auto* p = fSax2;
@@ -338,7 +338,7 @@ public:
             p->setFeature(XMLUni::fgXercesCalculateSrcOfs, c.calcSrcOfs); p->setFeature(XMLUni::fgXercesDisableDefaultEntityResolution, c.disableDefaultEntityResolution);
             p->setFeature(XMLUni::fgXercesSkipDTDValidation, c.skipDTDValidation); p->setFeature(XMLUni::fgXercesStandardUriConformant, c.standardUri);
             p->setFeature(XMLUni::fgXercesCacheGrammarFromParse, c.cacheGrammar); p->setFeature(XMLUni::fgXercesUseCachedGrammarInParse, c.useCachedGrammar || c.cacheGrammar);
-            p->setProperty(XMLUni::fgXercesSecurityManager, (void*)sm);
+            p->setProperty(XMLUni::fgXercesSecurityManager, (void*)sm); p->setFeature(XMLUni::fgXercesDisallowDoctype, c.disallowDoctype);
             XMLSize_t lw = c.lowWaterMark >= 0 ? (XMLSize_t)c.lowWaterMark : 100; p->setProperty(XMLUni::fgXercesLowWaterMark, &lw);
             if (c.calcSrcOfs) fRec.srcOfs = [p]() { return " ofs=" + std::to_string((unsigned long long)((SAX2XMLReaderImpl*)p)->getSrcOffset()); }; else fRec.srcOfs = nullptr;
         } else if (fDom) { auto* p = fDom;
@@ -347,7 +347,7 @@ public:
             p->setDoNamespaces(c.ns); p->setDoSchema(c.schema); p->setValidationSchemaFullChecking(c.fullSchema); p->setIdentityConstraintChecking(c.identity);
             p->setExitOnFirstFatalError(c.exitOnFirstFatal); p->setValidationConstraintFatal(c.validationErrorAsFatal); p->setLoadExternalDTD(c.loadExternalDTD); p->setLoadSchema(c.loadSchema);
             p->setCalculateSrcOfs(c.calcSrcOfs); p->setDisableDefaultEntityResolution(c.disableDefaultEntityResolution); p->setSkipDTDValidation(c.skipDTDValidation); p->setStandardUriConformant(c.standardUri);
-            p->cacheGrammarFromParse(c.cacheGrammar); p->useCachedGrammarInParse(c.useCachedGrammar || c.cacheGrammar); p->setSecurityManager(sm);
+            p->cacheGrammarFromParse(c.cacheGrammar); p->useCachedGrammarInParse(c.useCachedGrammar || c.cacheGrammar); p->setSecurityManager(sm); p->setDisallowDoctype(c.disallowDoctype);
             p->setCreateEntityReferenceNodes(c.entityRefNodes); p->setIncludeIgnorableWhitespace(c.includeIgnorableWS); p->setCreateCommentNodes(c.comments); p->setDoXInclude(c.doXInclude);
             p->setCreateSchemaInfo(c.psvi);
             if (c.lowWaterMark >= 0) p->setLowWaterMark((XMLSize_t)c.lowWaterMark); else p->setLowWaterMark(100);
@@ -361,7 +361,7 @@ public:
             setb(XMLUni::fgXercesDisableDefaultEntityResolution, c.disableDefaultEntityResolution); setb(XMLUni::fgXercesSkipDTDValidation, c.skipDTDValidation); setb(XMLUni::fgXercesStandardUriConformant, c.standardUri);
             setb(XMLUni::fgXercesCacheGrammarFromParse, c.cacheGrammar); setb(XMLUni::fgXercesUseCachedGrammarInParse, c.useCachedGrammar || c.cacheGrammar);
             setb(XMLUni::fgDOMEntities, c.entityRefNodes); setb(XMLUni::fgDOMElementContentWhitespace, c.includeIgnorableWS); setb(XMLUni::fgDOMComments, c.comments); setb(XMLUni::fgXercesDoXInclude, c.doXInclude);
-            setb(XMLUni::fgXercesDOMHasPSVIInfo, c.psvi);
+            setb(XMLUni::fgXercesDOMHasPSVIInfo, c.psvi); setb(XMLUni::fgDOMDisallowDoctype, c.disallowDoctype);
             g->setParameter(XMLUni::fgXercesSecurityManager, (const void*)sm);
             XMLSize_t lw = c.lowWaterMark >= 0 ? (XMLSize_t)c.lowWaterMark : 100; g->setParameter(XMLUni::fgXercesLowWaterMark, (const void*)&lw);
         }
